@@ -269,6 +269,14 @@ def rule_bind(ctx):
 
 
 def run(ctx):
+    # a freed bus (index None) is never turned into a command argument: None would go out as 0
+    bus = ctx.repo.cls('sc3.synth.bus:Bus')
+    ci_ = bus.methods['_as_control_input']
+    b_ = U.body_nodoc(ci_.node)
+    ctx.rule('C17.guard', 'freed objects are refused')
+    ok = len(b_) >= 2 and isinstance(b_[0], ast.If) and norm(b_[0].test) == 'self._index is None' and isinstance(b_[0].body[-1], ast.Raise)
+    ctx.ob('C17.guard', f'{ci_.fq}:freed', ok, 'a bus without index (freed) must raise instead of returning None as a control input '
+                                              '(None is encoded as 0: the command would name bus 0)', ci_.node, ci_.module)
     from .. import beliefs
     ctx.rule('C17.absent', 'ids, indexes and targets are defaulted only when they are None: 0 is the root node, the first bus and the first buffer')
     beliefs.rule_ordefault(ctx, 'C17.absent', ['sc3.synth.node', 'sc3.synth.buffer', 'sc3.synth.bus', 'sc3.synth.server'],
@@ -286,6 +294,8 @@ def run(ctx):
 
 
 MUTANTS = [
+    dict(rule='C17.guard', name='(fix reverted) a freed bus is a valid control input', file='sc3/synth/bus.py',
+         old="    def _as_control_input(self):\n        if self._index is None:\n            raise BusException('bus not allocated')\n        return self._index", new="    def _as_control_input(self):\n        return self._index"),
     dict(rule='C17.cmds', name='(fix reverted) Buffer.cue sends /b_read arguments out of order', file='sc3/synth/buffer.py',
          old="            '/b_read', self._bufnum, path, start_frame, self._frames,\n            0, True, fn.value(completion_msg, self))", new="            '/b_read', self._bufnum, path, start_frame, 0, True,\n            self._frames, fn.value(completion_msg, self))"),
     dict(rule='C17.cmds', name='(fix reverted) dict arguments flattened without embedding list values', file='sc3/synth/_graphparam.py',
